@@ -645,4 +645,49 @@ theorem peeked_eof (s : PState) (hs : s.Before [eofRune]) : ∃ lx s', Peeked s 
   have h := scanIW_fresh s hn (by rw [htok]; decide) (by rw [htok]; decide) (by rw [htok]; decide)
   exact ⟨_, _, ⟨_, h, rfl⟩, htok⟩
 
+/-- How a handler ends on the printed form of its statement: `m` returns `a` and stops at `sK`
+exactly — or, when the statement ends where an optional clause could follow (`peek`), at `sK`
+after a look-ahead of one token which is none of `stop` (the tokens that would open such a clause). -/
+def Returns {α : Type} (m : P α) (s : PState) (a : α) (sK : PState) (peek : Bool) (stop : List Token) : Prop :=
+  if peek then ∀ lx s', Peeked sK lx s' → lx.tok ∉ stop → m.run s = .ok (a, s') else m.run s = .ok (a, sK)
+
+theorem Returns.exact {α : Type} {m : P α} {s : PState} {a : α} {sK : PState} {stop : List Token}
+    (h : m.run s = .ok (a, sK)) : Returns m s a sK false stop := by
+  unfold Returns; rw [if_neg (by simp)]; exact h
+
+/-! ## more on identifiers -/
+
+theorem identFirst_not_digit {c : Char} (h : isIdentFirstChar c = true) : isDigit c = false := by
+  cases hd : isDigit c with
+  | false => rfl
+  | true =>
+    exfalso
+    unfold isDigit at hd
+    unfold isIdentFirstChar isLetter at h
+    simp only [Bool.or_eq_true, Bool.and_eq_true, decide_eq_true_eq, beq_iff_eq] at hd h
+    omega
+
+/-- `QuoteIdent(name)` never starts with a digit (so a `.` before it is a DOT token, not the
+start of a number). -/
+theorem quoteIdent_head_not_digit (name k : Str) : ∀ x t, quoteIdent [name] ++ k = x :: t → isDigit x = false := by
+  intro x t hxt
+  rw [C06.quoteIdent_single] at hxt
+  by_cases hq : (identNeedsQuotes name || name == []) = true
+  · rw [if_pos hq] at hxt
+    simp only [List.cons_append, List.cons.injEq] at hxt
+    rw [← hxt.1]; decide
+  · rw [if_neg hq] at hxt
+    simp only [Bool.or_eq_true, beq_iff_eq, not_or] at hq
+    obtain ⟨hq1, hne⟩ := hq
+    have hq1 : identNeedsQuotes name = false := by simpa using hq1
+    obtain ⟨_, c, tl, hname, hc, _⟩ := (identNeedsQuotes_false_iff name hne).mp hq1
+    obtain ⟨_, _, _, hcq, _⟩ := isIdentFirstChar_facts hc
+    have h1 : c ≠ '\n' := by intro e; subst e; revert hc; decide
+    have h2 : c ≠ '\\' := by intro e; subst e; revert hc; decide
+    rw [hname] at hxt
+    simp only [List.flatMap_cons, esc, h1, h2, hcq, if_false, List.cons_append, List.nil_append,
+      List.cons.injEq] at hxt
+    rw [← hxt.1]
+    exact identFirst_not_digit hc
+
 end InfluxQL
